@@ -529,12 +529,15 @@ func asciiLower(s string) string {
 }
 
 // DialRaw opens a connection without any TLS client: the harness writes raw bytes with c.Raw.Write.
-func (s *Stack) DialRaw(name string, addr net.Addr) *Client {
+func (s *Stack) DialRaw(name string, addr net.Addr) *Client { return s.DialRawWith(name, addr, nil) }
+
+// DialRawWith is DialRaw with a preparation step on both ends before the proxy can accept the connection.
+func (s *Stack) DialRawWith(name string, addr net.Addr, prep func(cl, sv *memnet.Conn)) *Client {
 	if addr == nil {
 		s.nextPort++
 		addr = memnet.TCPAddr("10.0.0.9", s.nextPort)
 	}
-	cl, sv, err := s.Ln.Dial(addr)
+	cl, sv, err := s.Ln.DialWith(addr, prep)
 	c := &Client{Name: name}
 	if err != nil {
 		c.hsDone, c.hsErr = true, err
